@@ -213,15 +213,467 @@ def CornerExactMul (w₁ w₂ o₁ o₂ : Value) : Bool :=
       cohOK (newMinOf Num.mulCty l1 h1 l2 h2) (newMaxOf Num.mulCty l1 h1 l2 h2)
   | _, _, _, _ => true
 
+/-! ### the zero exit (`val.RawEquals(Zero) || other.RawEquals(Zero)`, /repo 6d2fa5e)
+
+"If either value is exactly zero then the result must either be zero or an error":
+a known zero times anything that multiplies without a panic is a zero, so the known
+`cty.Zero` covers the concrete product.  The same exit is taken by the corner
+products of `numericRangeArithmetic` when one bound is an unknown number (the
+bound of a dynamically typed operand) and the other a zero: `cornerMul`. -/
+
+namespace Num
+theorem isZero_of_between_zeros {l h y : Num} (hl : l.isZero = true) (hh : h.isZero = true)
+    (b : Num.cmp l y ≤ 0) (c : Num.cmp y h ≤ 0) : y.isZero = true := by
+  cases l with
+  | inf _ => simp [isZero] at hl
+  | fin nl ml el pl =>
+  cases ml with
+  | succ _ => simp [isZero] at hl
+  | zero =>
+  cases h with
+  | inf _ => simp [isZero] at hh
+  | fin nh mh eh ph =>
+  cases mh with
+  | succ _ => simp [isZero] at hh
+  | zero =>
+  cases y with
+  | inf ny => cases ny <;> simp [cmp] at b c
+  | fin ny my ey py =>
+    cases my with
+    | zero => rfl
+    | succ k =>
+      exfalso
+      simp only [cmp, scaleTo] at b c
+      have p1 : (0 : Int) < (2 : Int) ^ (ey - min el ey).toNat := Int.pow_pos (by decide)
+      have p2 : (0 : Int) < (2 : Int) ^ (ey - min ey eh).toNat := Int.pow_pos (by decide)
+      cases ny
+      · have : (0:Int) < ((k + 1 : Nat) : Int) * (2 : Int) ^ (ey - min ey eh).toNat := Int.mul_pos (by omega) p2
+        simp at c
+        split at c <;> (try split at c) <;> simp_all <;> omega
+      · have : ((-((k + 1 : Nat) : Int))) * (2 : Int) ^ (ey - min el ey).toNat < 0 := by
+          have := Int.mul_pos (a := ((k + 1 : Nat) : Int)) (by omega) p1
+          rw [Int.neg_mul]; omega
+        simp at b
+        split at b <;> (try split at b) <;> simp_all <;> omega
+end Num
+
+namespace Num
+theorem mulCty_isZero_left {x y z : Num} (hx : x.isZero = true) (h : mulCty x y = .ok z) : z.isZero = true := by
+  cases x with
+  | inf _ => simp [isZero] at hx
+  | fin na ma ea pa =>
+    cases ma with
+    | succ _ => simp [isZero] at hx
+    | zero =>
+      cases y with
+      | inf nb => simp [mulCty] at h
+      | fin nb mb eb pb =>
+        simp [mulCty, round, roundME, bitlen, mk, norm, normFuel] at h
+        subst h; rfl
+
+theorem mulCty_isZero_right {x y z : Num} (hy : y.isZero = true) (h : mulCty x y = .ok z) : z.isZero = true := by
+  cases y with
+  | inf _ => simp [isZero] at hy
+  | fin nb mb eb pb =>
+    cases mb with
+    | succ _ => simp [isZero] at hy
+    | zero =>
+      cases x with
+      | inf na => simp [mulCty] at h
+      | fin na ma ea pa =>
+        simp [mulCty, round, roundME, bitlen, mk, norm, normFuel] at h
+        subst h; rfl
+end Num
+
+/-- `cty.Zero` covers every zero (either sign, any precision) -/
+theorem covers_zeroVal_numVal {z : Num} (hz : z.isZero = true) : Covers zeroVal (numVal z) = true := by
+  cases z with
+  | inf _ => simp [Num.isZero] at hz
+  | fin n m e p =>
+    cases m with
+    | succ _ => simp [Num.isZero] at hz
+    | zero =>
+      simp [Covers, CoversG, numVal, zeroVal, zeroNum, Ty.matches, Payload.stripMarks, coversP, numEq, Num.cmp, Num.scaleTo]
+
+theorem covers_unkNum_zeroVal : Covers unkNumNotNull zeroVal = true := covers_unkNum_numVal _
+
+/-- a known zero covers (exactly) only a known zero -/
+theorem rawEqualsZero_of_coversX {w o : Value} (hc : CoversX w o = true) (hz : rawEqualsZero w = true)
+    (hmo : o.isMarked = false) : rawEqualsZero o = true := by
+  obtain ⟨tw, pw⟩ := w
+  obtain ⟨to, po⟩ := o
+  simp only [rawEqualsZero, Bool.and_eq_true] at hz ⊢
+  obtain ⟨htw, hzw⟩ := hz
+  cases tw <;> simp [Ty.isNumber] at htw
+  cases pw <;> simp at hzw
+  rename_i x
+  simp only [CoversX, CoversG, Bool.and_eq_true] at hc
+  have hto := matches_number_left hc.1
+  subst hto
+  cases po <;> simp_all [Payload.stripMarks, coversP, numEq, isMarked, Payload.isMarked, Ty.isNumber]
+
+theorem asNum_isZero_of_rawEqualsZero {v : Value} {x : Num} (hz : rawEqualsZero v = true) (hx : asNum v = .ok x) :
+    x.isZero = true := by
+  obtain ⟨t, p⟩ := v
+  cases p <;> simp_all [rawEqualsZero, asNum]
+
+/-- both numeric bounds of the operand are zeros (then it stands for a zero, or for a null) -/
+def zeroBounded (v : Value) : Bool :=
+  match numBounds v with
+  | some (l, h) => l.isZero && h.isZero
+  | none => false
+
+theorem range_numdyn_cases {a : Value} (ha : a.isMarked = false) (hta : a.ty = .number ∨ a.ty = .dyn) :
+    ∃ ra, a.range = .ok ra ∧
+      ((a.ty = .dyn ∧ ra.numLower = .ok none ∧ ra.numUpper = .ok none ∧ numBounds a = none) ∨
+       (a.ty = .number ∧ ∃ l h, ra.numLower = .ok (some l) ∧ ra.numUpper = .ok (some h) ∧ numBounds a = some (l, h))) := by
+  obtain ⟨raw, hra⟩ := range_ok_numdyn ha hta
+  refine ⟨_, hra, ?_⟩
+  rcases hta with h | h
+  · right
+    refine ⟨h, ?_⟩
+    simp only [numBounds, hra, VRange.numLower, VRange.numUpper, h, Ty.isDyn, Ty.isNumber]
+    cases raw <;> simp <;> (rename_i lo hi; cases lo <;> cases hi <;> simp)
+  · left
+    refine ⟨h, ?_⟩
+    simp [numBounds, hra, VRange.numLower, VRange.numUpper, h, Ty.isDyn]
+
+theorem rangeArithMul_dyn {a b : Value} (ha : a.isMarked = false) (hb : b.isMarked = false)
+    (hta : a.ty = .number ∨ a.ty = .dyn) (htb : b.ty = .number ∨ b.ty = .dyn) (hd : a.ty = .dyn ∨ b.ty = .dyn) :
+    rangeArithC cornerMul a b = .ok (if zeroBounded a || zeroBounded b then zeroVal else unkNumNotNull) := by
+  obtain ⟨ra, hra, ca⟩ := range_numdyn_cases ha hta
+  obtain ⟨rb, hrb, cb⟩ := range_numdyn_cases hb htb
+  unfold rangeArithC
+  rcases ca with ⟨ta, la, ua, na⟩ | ⟨ta, l1, h1, la, ua, na⟩ <;>
+  rcases cb with ⟨tb, lb, ub, nb⟩ | ⟨tb, l2, h2, lb, ub, nb⟩
+  · simp only [hra, hrb, la, ua, lb, ub, Res.bind_ok, zeroBounded, na, nb]
+    rfl
+  · simp only [hra, hrb, la, ua, lb, ub, Res.bind_ok, zeroBounded, na, nb, cornerMul]
+    cases z1 : l2.isZero <;> cases z2 : h2.isZero <;> simp <;> rfl
+  · simp only [hra, hrb, la, ua, lb, ub, Res.bind_ok, zeroBounded, na, nb, cornerMul]
+    cases z1 : l1.isZero <;> cases z2 : h1.isZero <;> simp <;> rfl
+  · rcases hd with h | h
+    · rw [ta] at h; cases h
+    · rw [tb] at h; cases h
+
+theorem rangeArithMul_bounds {a b : Value} {ra rb : VRange} {l1 h1 l2 h2 : Num}
+    (hra : a.range = .ok ra) (hrb : b.range = .ok rb)
+    (h1l : ra.numLower = .ok (some l1)) (h1u : ra.numUpper = .ok (some h1))
+    (h2l : rb.numLower = .ok (some l2)) (h2u : rb.numUpper = .ok (some h2)) :
+    rangeArithC cornerMul a b =
+      .ok (numRangeResult (loOf (newMinOf Num.mulCty l1 h1 l2 h2)) (hiOf (newMaxOf Num.mulCty l1 h1 l2 h2))) := by
+  unfold rangeArithC
+  simp only [hra, hrb, h1l, h1u, h2l, h2u, Res.bind_ok]
+  rfl
+
+/-- a wholly known operand with two zero bounds is a known zero -/
+theorem rawEqualsZero_of_zeroBounded {o : Value} (hk : o.whollyKnown = true) (hz : zeroBounded o = true) :
+    rawEqualsZero o = true := by
+  obtain ⟨t, p⟩ := o
+  simp only [zeroBounded, numBounds] at hz
+  cases p <;> simp [Value.whollyKnown, Payload.whollyKnown] at hk <;>
+    cases t <;>
+    simp_all [Value.range, Value.isMarked, Payload.isMarked, VRange.numLower, VRange.numUpper, Ty.isDyn, Ty.isNumber,
+      rawEqualsZero, Num.isZero, knownCollLen]
+  all_goals (try split at hz) <;> simp_all [VRange.numLower, VRange.numUpper, Ty.isDyn, Ty.isNumber, Num.isZero]
+
+/-- the number a zero-bounded weakening stands for is a zero -/
+theorem isZero_of_zeroBounded_covers {w o : Value} {y : Num} (hc : CoversG true w o = true) (hy : asNum o = .ok y)
+    (hmw : w.isMarked = false) (hwt : w.ty = .number ∨ w.ty = .dyn) (hz : zeroBounded w = true) : y.isZero = true := by
+  have htw : w.ty = .number := by
+    rcases hwt with t | t
+    · exact t
+    · obtain ⟨_, _, ca⟩ := range_numdyn_cases hmw (Or.inr t)
+      rcases ca with ⟨_, _, _, nb⟩ | ⟨tn, _⟩
+      · simp [zeroBounded, nb] at hz
+      · exact tn
+  obtain ⟨raw, l, h, r1, lo1, hi1, b1, c1⟩ := range_bounds_of_covers hc (asNum_inv hy) hmw htw
+  have nb : numBounds w = some (l, h) := by simp [numBounds, r1, lo1, hi1]
+  simp only [zeroBounded, nb, Bool.and_eq_true] at hz
+  exact Num.isZero_of_between_zeros hz.1 hz.2 b1 c1
+
+/-- Multiply without the zero exit of the outer call: the range arithmetic on every
+short circuit (what `mulU` does whenever neither operand is a known zero) -/
+def mulU0 (a b : Value) : Res Value := do
+  match ← typeCheck .number [a, b] with
+  | .none => pure (numVal (← Num.mulCty (← asNum a) (← asNum b)))
+  | _ => rangeArithC cornerMul a b
+
+theorem mulU_eq_mulU0 {a b : Value} {tc : TC} (htc : typeCheck .number [a, b] = .ok tc)
+    (h : tc = .none ∨ (rawEqualsZero a || rawEqualsZero b) = false) : mulU a b = mulU0 a b := by
+  unfold mulU mulU0
+  rw [htc, Res.bind_ok]
+  rcases tc_cases tc with rfl | rfl | rfl
+  · rfl
+  all_goals
+    rcases h with h | h
+    · cases h
+    · simp only [h, Bool.false_eq_true, if_false]; rfl
+
+theorem mulU_eq_zero {a b : Value} {tc : TC} (htc : typeCheck .number [a, b] = .ok tc) (h1 : tc ≠ .none)
+    (h2 : (rawEqualsZero a || rawEqualsZero b) = true) : mulU a b = .ok zeroVal := by
+  unfold mulU
+  rw [htc, Res.bind_ok]
+  rcases tc_cases tc with rfl | rfl | rfl
+  · exact absurd rfl h1
+  all_goals simp only [h2, if_true]; rfl
+
+/-- the product of two operands of which one is a known zero is a zero (or a panic) -/
+theorem mulU_zero_operand {o₁ o₂ r : Value} (hz : (rawEqualsZero o₁ || rawEqualsZero o₂) = true)
+    (ho : mulU o₁ o₂ = .ok r) : Covers zeroVal r = true := by
+  unfold mulU at ho
+  obtain ⟨tc, htc, ho⟩ := Res.bind_eq_ok.mp ho
+  rcases tc_cases tc with rfl | rfl | rfl <;> simp only at ho
+  · obtain ⟨x, hx, ho⟩ := Res.bind_eq_ok.mp ho
+    obtain ⟨y, hy, ho⟩ := Res.bind_eq_ok.mp ho
+    obtain ⟨z, hzz, ho⟩ := Res.bind_eq_ok.mp ho
+    simp only [pure, Res.ok.injEq] at ho
+    subst ho
+    rcases Bool.or_eq_true _ _ |>.mp hz with h | h
+    · exact covers_zeroVal_numVal (Num.mulCty_isZero_left (asNum_isZero_of_rawEqualsZero h hx) hzz)
+    · exact covers_zeroVal_numVal (Num.mulCty_isZero_right (asNum_isZero_of_rawEqualsZero h hy) hzz)
+  all_goals
+    simp only [hz, if_true, pure, Res.ok.injEq] at ho
+    subst ho
+    exact covers_zeroVal_numVal rfl
+
+/-- the side condition that the zero exit of the corner products adds to
+`sound_mul_partial`: a weakened operand whose two numeric bounds are zeros stands
+for a NUMBER (which then is a zero) — not for a null, the one other thing a
+nullable unknown refined to `[0, 0]` admits -/
+def ZeroBoundsNumber (w o : Value) : Bool :=
+  !zeroBounded w || (match asNum o with | .ok _ => true | _ => false)
+
+/-- no short circuit in the concrete call -/
+theorem mulU0_sound_none (o₁ o₂ w₁ w₂ r : Value) (hk₁ : o₁.whollyKnown = true) (hk₂ : o₂.whollyKnown = true)
+    (hmw₁ : w₁.isMarked = false) (hmw₂ : w₂.isMarked = false)
+    (hc₁ : CoversX w₁ o₁ = true) (hc₂ : CoversX w₂ o₂ = true) (hside : CornerExactMul w₁ w₂ o₁ o₂ = true)
+    (hto : typeCheck .number [o₁, o₂] = .ok .none)
+    (ho : mulU0 o₁ o₂ = .ok r) : ∃ r', mulU0 w₁ w₂ = .ok r' ∧ Covers r' r = true := by
+  have hg₁ : CoversG true w₁ o₁ = true := hc₁
+  have hg₂ : CoversG true w₂ o₂ = true := hc₂
+  unfold mulU0 at ho ⊢
+  rw [hto, Res.bind_ok] at ho
+  obtain ⟨tcw, htw⟩ := tc2_ok_of_covers (Or.inr rfl) hg₁ hg₂ hto
+  obtain ⟨wt1, wt2, wd, wn⟩ := tc2_number_inv htw
+  obtain ⟨ot1, ot2, od, on⟩ := tc2_number_inv hto
+  rw [htw, Res.bind_ok]
+  simp only at ho
+  obtain ⟨x, hx, ho⟩ := Res.bind_eq_ok.mp ho
+  obtain ⟨y, hy, ho⟩ := Res.bind_eq_ok.mp ho
+  obtain ⟨z, hz, ho⟩ := Res.bind_eq_ok.mp ho
+  simp only [pure, Res.ok.injEq] at ho
+  subst ho
+  have dynCase : (w₁.ty = .dyn ∨ w₂.ty = .dyn) →
+      ∃ r', rangeArithC cornerMul w₁ w₂ = .ok r' ∧ Covers r' (numVal z) = true := by
+    intro hd
+    refine ⟨_, rangeArithMul_dyn hmw₁ hmw₂ wt1 wt2 hd, ?_⟩
+    by_cases hzb : (zeroBounded w₁ || zeroBounded w₂) = true
+    · simp only [hzb, if_true]
+      rcases (Bool.or_eq_true _ _).mp hzb with h | h
+      · exact covers_zeroVal_numVal (Num.mulCty_isZero_left (isZero_of_zeroBounded_covers hg₁ hx hmw₁ wt1 h) hz)
+      · exact covers_zeroVal_numVal (Num.mulCty_isZero_right (isZero_of_zeroBounded_covers hg₂ hy hmw₂ wt2 h) hz)
+    · simp only [hzb, Bool.false_eq_true, if_false]
+      exact covers_unkNum_numVal z
+  have short : ∃ r', rangeArithC cornerMul w₁ w₂ = .ok r' ∧ Covers r' (numVal z) = true := by
+    rcases wt1 with t1 | t1
+    · rcases wt2 with t2 | t2
+      · obtain ⟨raw1, l1, h1, r1, lo1, hi1, b1, c1⟩ := range_bounds_of_covers hg₁ (asNum_inv hx) hmw₁ t1
+        obtain ⟨raw2, l2, h2, r2, lo2, hi2, b2, c2⟩ := range_bounds_of_covers hg₂ (asNum_inv hy) hmw₂ t2
+        have nb1 : numBounds w₁ = some (l1, h1) := by simp [numBounds, r1, lo1, hi1]
+        have nb2 : numBounds w₂ = some (l2, h2) := by simp [numBounds, r2, lo2, hi2]
+        refine ⟨_, rangeArithMul_bounds r1 r2 lo1 hi1 lo2 hi2, ?_⟩
+        have hs := hside
+        simp only [CornerExactMul, hx, hy, nb1, nb2, Bool.and_eq_true] at hs
+        obtain ⟨⟨⟨⟨⟨⟨⟨⟨⟨⟨⟨g1, g2⟩, g3⟩, g4⟩, g5⟩, g6⟩, m1⟩, m2⟩, m3⟩, m4⟩, m5⟩, hco⟩ := hs
+        exact mul_range_cover b1 c1 b2 c2 hz g1 g2 g3 g4 g5 g6 m1 m2 m3 m4 m5 (cohOK_spec hco)
+      · exact dynCase (Or.inr t2)
+    · exact dynCase (Or.inl t1)
+  rcases tc_cases tcw with rfl | rfl | rfl
+  · obtain ⟨_, u1, u2⟩ := tc2_none_of_covers (Or.inr rfl) hk₁ hk₂ hg₁ hg₂ htw
+    have e1 := eq_of_coversX_num hc₁ (asNum_inv hx) (on (by simp)).1 (wn (by simp)).1 hmw₁ u1
+    have e2 := eq_of_coversX_num hc₂ (asNum_inv hy) (on (by simp)).2 (wn (by simp)).2 hmw₂ u2
+    subst e1 e2
+    simp only [hx, hy, hz, Res.bind_ok, pure]
+    exact ⟨_, rfl, covers_numVal_self _⟩
+  · exact short
+  · exact short
+
+/-- a dynamically typed operand in the concrete call, no known zero -/
+theorem mulU0_sound_dyn (o₁ o₂ w₁ w₂ r : Value) (hk₁ : o₁.whollyKnown = true) (hk₂ : o₂.whollyKnown = true)
+    (hmo₁ : o₁.isMarked = false) (hmo₂ : o₂.isMarked = false) (hmw₁ : w₁.isMarked = false) (hmw₂ : w₂.isMarked = false)
+    (hc₁ : CoversX w₁ o₁ = true) (hc₂ : CoversX w₂ o₂ = true)
+    (hzb₁ : ZeroBoundsNumber w₁ o₁ = true) (hzb₂ : ZeroBoundsNumber w₂ o₂ = true)
+    (hto : typeCheck .number [o₁, o₂] = .ok .dynamic)
+    (hnz : (rawEqualsZero o₁ || rawEqualsZero o₂) = false)
+    (ho : mulU0 o₁ o₂ = .ok r) : ∃ r', mulU0 w₁ w₂ = .ok r' ∧ Covers r' r = true := by
+  have hg₁ : CoversG true w₁ o₁ = true := hc₁
+  have hg₂ : CoversG true w₂ o₂ = true := hc₂
+  simp only [Bool.or_eq_false_iff] at hnz
+  unfold mulU0 at ho ⊢
+  rw [hto, Res.bind_ok] at ho
+  obtain ⟨tcw, htw⟩ := tc2_ok_of_covers (Or.inr rfl) hg₁ hg₂ hto
+  obtain ⟨wt1, wt2, wd, wn⟩ := tc2_number_inv htw
+  obtain ⟨ot1, ot2, od, on⟩ := tc2_number_inv hto
+  rw [htw, Res.bind_ok]
+  simp only at ho
+  -- the concrete call answers an unknown number
+  have zo₁ : zeroBounded o₁ = false := by
+    cases h : zeroBounded o₁
+    · rfl
+    · rw [rawEqualsZero_of_zeroBounded hk₁ h] at hnz; exact absurd hnz.1 (by simp)
+  have zo₂ : zeroBounded o₂ = false := by
+    cases h : zeroBounded o₂
+    · rfl
+    · rw [rawEqualsZero_of_zeroBounded hk₂ h] at hnz; exact absurd hnz.2 (by simp)
+  rw [rangeArithMul_dyn hmo₁ hmo₂ ot1 ot2 (od rfl)] at ho
+  simp only [zo₁, zo₂, Bool.or_self, Bool.false_eq_true, if_false, Res.ok.injEq] at ho
+  subst ho
+  -- so does the weakened call: a zero-bounded weakening would stand for a zero
+  have zw : ∀ (w o : Value), CoversG true w o = true → w.isMarked = false → ZeroBoundsNumber w o = true →
+      rawEqualsZero o = false → (o.ty = .number ∨ o.ty = .dyn) → (w.ty = .number ∨ w.ty = .dyn) →
+      zeroBounded w = false := by
+    intro w o hg hmw hzb hz hto hwt
+    cases h : zeroBounded w
+    · rfl
+    · exfalso
+      simp only [ZeroBoundsNumber, h, Bool.not_true, Bool.false_or] at hzb
+      cases hy : asNum o with
+      | ok y =>
+        have yz := isZero_of_zeroBounded_covers hg hy hmw hwt h
+        have hv := asNum_inv hy
+        rcases hto with t | t
+        · obtain ⟨to, po⟩ := o
+          simp only at hv t
+          subst hv t
+          simp [rawEqualsZero, Ty.isNumber, yz] at hz
+        · have := covers_ty_dyn hg t
+          obtain ⟨_, _, ca⟩ := range_numdyn_cases hmw (Or.inr this)
+          rcases ca with ⟨_, _, _, nb⟩ | ⟨tn, _⟩
+          · simp [zeroBounded, nb] at h
+          · rw [this] at tn; cases tn
+      | err _ => simp [hy] at hzb
+      | panic _ => simp [hy] at hzb
+      | unmodelled => simp [hy] at hzb
+  have zw₁ := zw w₁ o₁ hg₁ hmw₁ hzb₁ hnz.1 ot1 wt1
+  have zw₂ := zw w₂ o₂ hg₂ hmw₂ hzb₂ hnz.2 ot2 wt2
+  have hd : w₁.ty = .dyn ∨ w₂.ty = .dyn := by
+    rcases od rfl with h | h
+    · exact Or.inl (covers_ty_dyn hg₁ h)
+    · exact Or.inr (covers_ty_dyn hg₂ h)
+  have hrw := rangeArithMul_dyn hmw₁ hmw₂ wt1 wt2 hd
+  simp only [zw₁, zw₂, Bool.or_self, Bool.false_eq_true, if_false] at hrw
+  rcases tc_cases tcw with rfl | rfl | rfl
+  · rcases hd with h | h
+    · rw [(wn (by simp)).1] at h; cases h
+    · rw [(wn (by simp)).2] at h; cases h
+  · exact ⟨_, hrw, covers_unkNum_self⟩
+  · exact ⟨_, hrw, covers_unkNum_self⟩
+
+/-- Multiply is sound under `CornerExactMul` (no corner product is rounded) and
+`ZeroBoundsNumber` (a `[0, 0]`-bounded weakening stands for a number) -/
 theorem mulU_sound_partial (o₁ o₂ w₁ w₂ r : Value) (hk₁ : o₁.whollyKnown = true) (hk₂ : o₂.whollyKnown = true)
     (hmo₁ : o₁.isMarked = false) (hmo₂ : o₂.isMarked = false) (hmw₁ : w₁.isMarked = false) (hmw₂ : w₂.isMarked = false)
     (hc₁ : CoversX w₁ o₁ = true) (hc₂ : CoversX w₂ o₂ = true) (hside : CornerExactMul w₁ w₂ o₁ o₂ = true)
-    (ho : mulU o₁ o₂ = .ok r) : ∃ r', mulU w₁ w₂ = .ok r' ∧ Covers r' r = true :=
-  arithU_sound_partial Num.mulCty mulU CornerExactMul (fun _ _ => rfl)
-    (by
-      intro w₁ w₂ o₁ o₂ x y z l1 h1 l2 h2 hs hx hy nb1 nb2 b1 c1 b2 c2 hz
-      simp only [CornerExactMul, hx, hy, nb1, nb2, Bool.and_eq_true] at hs
-      obtain ⟨⟨⟨⟨⟨⟨⟨⟨⟨⟨⟨g1, g2⟩, g3⟩, g4⟩, g5⟩, g6⟩, m1⟩, m2⟩, m3⟩, m4⟩, m5⟩, hco⟩ := hs
-      exact mul_range_cover b1 c1 b2 c2 hz g1 g2 g3 g4 g5 g6 m1 m2 m3 m4 m5 (cohOK_spec hco))
-    o₁ o₂ w₁ w₂ r hk₁ hk₂ hmo₁ hmo₂ hmw₁ hmw₂ hc₁ hc₂ hside ho
+    (hzb₁ : ZeroBoundsNumber w₁ o₁ = true) (hzb₂ : ZeroBoundsNumber w₂ o₂ = true)
+    (ho : mulU o₁ o₂ = .ok r) : ∃ r', mulU w₁ w₂ = .ok r' ∧ Covers r' r = true := by
+  have hg₁ : CoversG true w₁ o₁ = true := hc₁
+  have hg₂ : CoversG true w₂ o₂ = true := hc₂
+  obtain ⟨tco, hto⟩ : ∃ tc, typeCheck .number [o₁, o₂] = .ok tc := by
+    unfold mulU at ho
+    obtain ⟨tc, htc, _⟩ := Res.bind_eq_ok.mp ho
+    exact ⟨tc, htc⟩
+  obtain ⟨tcw, htw⟩ := tc2_ok_of_covers (Or.inr rfl) hg₁ hg₂ hto
+  obtain ⟨wt1, wt2, wd, wn⟩ := tc2_number_inv htw
+  obtain ⟨ot1, ot2, od, on⟩ := tc2_number_inv hto
+  have hdyn : tco ≠ .none → tco = .dynamic := by
+    intro hne
+    rcases tc_cases tco with h | h | h
+    · exact absurd h hne
+    · exact h
+    · exact absurd h (tc2_not_unknown hk₁ hk₂ hto)
+  by_cases hzw : (rawEqualsZero w₁ || rawEqualsZero w₂) = true
+  · -- a weakened operand is a known zero: it is the concrete operand itself
+    have hzo : (rawEqualsZero o₁ || rawEqualsZero o₂) = true := by
+      rcases (Bool.or_eq_true _ _).mp hzw with h | h
+      · simp [rawEqualsZero_of_coversX hc₁ h hmo₁]
+      · simp [rawEqualsZero_of_coversX hc₂ h hmo₂]
+    by_cases hn : tcw = .none
+    · subst hn
+      obtain ⟨hton, _, _⟩ := tc2_none_of_covers (Or.inr rfl) hk₁ hk₂ hg₁ hg₂ htw
+      rw [mulU_eq_mulU0 hton (Or.inl rfl)] at ho
+      rw [mulU_eq_mulU0 htw (Or.inl rfl)]
+      exact mulU0_sound_none o₁ o₂ w₁ w₂ r hk₁ hk₂ hmw₁ hmw₂ hc₁ hc₂ hside hton ho
+    · exact ⟨zeroVal, mulU_eq_zero htw hn hzw, mulU_zero_operand hzo ho⟩
+  · have hzw' : (rawEqualsZero w₁ || rawEqualsZero w₂) = false := by simpa using hzw
+    rw [mulU_eq_mulU0 htw (Or.inr hzw')]
+    by_cases hn : tco = .none
+    · subst hn
+      rw [mulU_eq_mulU0 hto (Or.inl rfl)] at ho
+      exact mulU0_sound_none o₁ o₂ w₁ w₂ r hk₁ hk₂ hmw₁ hmw₂ hc₁ hc₂ hside hto ho
+    · have hd := hdyn hn
+      subst hd
+      have hdw : w₁.ty = .dyn ∨ w₂.ty = .dyn := by
+        rcases od rfl with h | h
+        · exact Or.inl (covers_ty_dyn hg₁ h)
+        · exact Or.inr (covers_ty_dyn hg₂ h)
+      cases hzo : (rawEqualsZero o₁ || rawEqualsZero o₂)
+      · rw [mulU_eq_mulU0 hto (Or.inr hzo)] at ho
+        exact mulU0_sound_dyn o₁ o₂ w₁ w₂ r hk₁ hk₂ hmo₁ hmo₂ hmw₁ hmw₂ hc₁ hc₂ hzb₁ hzb₂ hto hzo ho
+      · -- only the concrete call leaves through the zero exit; the weakened call answers a
+        -- zero (both bounds of the zero's weakening are zeros) or an unknown number
+        rw [mulU_eq_zero hto hn hzo] at ho
+        simp only [Res.ok.injEq] at ho
+        subst ho
+        have hrw := rangeArithMul_dyn hmw₁ hmw₂ wt1 wt2 hdw
+        have hcov : Covers (if zeroBounded w₁ || zeroBounded w₂ then zeroVal else unkNumNotNull) zeroVal = true := by
+          split
+          · exact covers_zeroVal_numVal rfl
+          · exact covers_unkNum_zeroVal
+        refine ⟨_, ?_, hcov⟩
+        unfold mulU0
+        rw [htw, Res.bind_ok]
+        rcases tc_cases tcw with rfl | rfl | rfl
+        · rcases hdw with h | h
+          · rw [(wn (by simp)).1] at h; cases h
+          · rw [(wn (by simp)).2] at h; cases h
+        · exact hrw
+        · exact hrw
+
+/-- with a known zero among the weakened operands no side condition is needed: the
+weakened call answers `cty.Zero` (or, without a short circuit, the concrete product) -/
+theorem mulU_sound_zero (o₁ o₂ w₁ w₂ r : Value) (hk₁ : o₁.whollyKnown = true) (hk₂ : o₂.whollyKnown = true)
+    (hmo₁ : o₁.isMarked = false) (hmo₂ : o₂.isMarked = false) (hmw₁ : w₁.isMarked = false) (hmw₂ : w₂.isMarked = false)
+    (hc₁ : CoversX w₁ o₁ = true) (hc₂ : CoversX w₂ o₂ = true)
+    (hzw : (rawEqualsZero w₁ || rawEqualsZero w₂) = true)
+    (ho : mulU o₁ o₂ = .ok r) : ∃ r', mulU w₁ w₂ = .ok r' ∧ Covers r' r = true := by
+  have hg₁ : CoversG true w₁ o₁ = true := hc₁
+  have hg₂ : CoversG true w₂ o₂ = true := hc₂
+  obtain ⟨tco, hto⟩ : ∃ tc, typeCheck .number [o₁, o₂] = .ok tc := by
+    unfold mulU at ho
+    obtain ⟨tc, htc, _⟩ := Res.bind_eq_ok.mp ho
+    exact ⟨tc, htc⟩
+  obtain ⟨tcw, htw⟩ := tc2_ok_of_covers (Or.inr rfl) hg₁ hg₂ hto
+  obtain ⟨_, _, _, wn⟩ := tc2_number_inv htw
+  have hzo : (rawEqualsZero o₁ || rawEqualsZero o₂) = true := by
+    rcases (Bool.or_eq_true _ _).mp hzw with h | h
+    · simp [rawEqualsZero_of_coversX hc₁ h hmo₁]
+    · simp [rawEqualsZero_of_coversX hc₂ h hmo₂]
+  by_cases hn : tcw = .none
+  · subst hn
+    obtain ⟨hton, u1, u2⟩ := tc2_none_of_covers (Or.inr rfl) hk₁ hk₂ hg₁ hg₂ htw
+    obtain ⟨_, _, _, on⟩ := tc2_number_inv hton
+    have ho' := ho
+    unfold mulU at ho'
+    rw [hton, Res.bind_ok] at ho'
+    simp only at ho'
+    obtain ⟨x, hx, ho'⟩ := Res.bind_eq_ok.mp ho'
+    obtain ⟨y, hy, ho'⟩ := Res.bind_eq_ok.mp ho'
+    obtain ⟨z, hz, ho'⟩ := Res.bind_eq_ok.mp ho'
+    simp only [pure, Res.ok.injEq] at ho'
+    have e1 := eq_of_coversX_num hc₁ (asNum_inv hx) (on (by simp)).1 (wn (by simp)).1 hmw₁ u1
+    have e2 := eq_of_coversX_num hc₂ (asNum_inv hy) (on (by simp)).2 (wn (by simp)).2 hmw₂ u2
+    rw [e1, e2, ← ho']
+    exact ⟨_, by rw [ho, ho'], covers_numVal_self _⟩
+  · exact ⟨zeroVal, mulU_eq_zero htw hn hzw, mulU_zero_operand hzo ho⟩
 end CtyModel
